@@ -91,6 +91,13 @@ def collect(ctx, nprog, with_tests=True, seed_offset=0, explore_kw=None):
     for fi, f in enumerate(forms):
         for v in ("match", "await", "when", "when-events"):
             progs.append(("formula:%d:%s" % (fi, v), p_C07.program(f, v).replace("Ev1()", "E1()").replace("Ev2()", "E2()").replace("Ev3()", "E3()")))
+    # shared actions: flows that start an identical action in the same step (merged by conflict resolution)
+    for i, (n, ends) in enumerate(((2, "E2 E3"), (3, "E2 E3 E2"), (2, "E2 E2"))):
+        body = ""
+        for k in range(n):
+            body += "flow s%d\n  match E1()\n  start A1Action(x=1) as $r\n  match %s()\n\n" % (k, ends.split()[k])
+        body += "flow main\n" + "".join("  start s%d\n" % k for k in range(n)) + "  match Never()\n"
+        progs.append(("shared-action:%d" % i, body))
     srcs = dict(progs)
     res = v2corpus.explore_many(progs, ctx.seed, **explore_kw)
     traces, errors = [], []
